@@ -87,6 +87,32 @@ func (g greet) resolve(right, prev string) greet {
 		}
 	case "space":
 		g.Claim = " " + right
+	case "nl":
+		g.Claim = right + "\n"
+	case "crlf":
+		g.Claim = right + "\r\n"
+	case "tab":
+		g.Claim = "\t" + right
+	case "0x":
+		g.Claim = "0x" + right
+	case "quoted":
+		g.Claim = "\"" + right + "\""
+	case "nbsp":
+		g.Claim = right + "\u00a0"
+	case "fullwidth": // first character replaced by its full-width Unicode twin
+		if len(right) > 0 && right[0] >= '0' && right[0] <= '9' {
+			g.Claim = string(rune(0xFF10+int(right[0]-'0'))) + right[1:]
+		} else if len(right) > 0 {
+			g.Claim = string(rune(0xFF41+int(right[0]-'a'))) + right[1:]
+		} else {
+			g.Claim = "\uFF10"
+		}
+	case "pct": // percent-encoded first character
+		if len(right) > 0 {
+			g.Claim = fmt.Sprintf("%%%02x", right[0]) + right[1:]
+		} else {
+			g.Claim = "%30"
+		}
 	case "swap":
 		// same multiset of characters, different order
 		if len(right) >= 2 && right[0] != right[len(right)-1] {
@@ -228,7 +254,7 @@ func rogueCatalogue(c *core.Ctx) []greet {
 		}
 		return b
 	}
-	return []greet{
+	cat := []greet{
 		{Kind: "hello", Cmd: rc, Form: "wrong", Lit: randHex(40)},
 		{Kind: "hello", Cmd: rc, Form: "empty"},
 		{Kind: "hello", Cmd: rc, Form: "absent"},
@@ -260,6 +286,25 @@ func rogueCatalogue(c *core.Ctx) []greet {
 		{Kind: "trunc", Arg: 0},
 		{Kind: "close"},
 	}
+	// ids that differ from the right one only in whitespace / encoding; appended so
+	// that the positions above stay put.  A form is used only if the library's own
+	// writer and reader carry that claim string through unchanged (otherwise what
+	// arrives would not be the greeting we think we sent).
+	for _, f := range []string{"nl", "crlf", "tab", "0x", "quoted", "nbsp", "fullwidth", "pct"} {
+		g := greet{Kind: "hello", Cmd: rc, Form: f}
+		if claimRoundTrips(g) {
+			cat = append(cat, g)
+		}
+	}
+	return cat
+}
+
+func claimRoundTrips(g greet) bool {
+	const sample = "0a1b2c3d4e5f60718293a4b5c6d7e8f901234567"
+	r := g.resolve(sample, sample)
+	mc := newMemConn(-1, helloBytes(r, sample), false)
+	got, err := ccb.VerifReadReverseConnectClaim(context.Background(), stream.NewStream(mc))
+	return err == nil && got == r.Claim
 }
 
 func legit() greet { return greet{Kind: "hello", Cmd: ccb.CommandReverseConnect, Form: "right"} }
